@@ -1652,6 +1652,9 @@ def check(ctx):
     rep.rule('N3', 'others / no-common-ancestor / empty exits / input consumed once (finite-domain evaluation)')
     rep.rule('N4', 'strict classify: prediction, no-match exit, warning exactly under a non-empty conflicting set, failure exactly without common ancestor (finite-domain evaluation)')
     rep.rule('N5', 'primary match: none without consensus; first nearest genome at or below the consensus, same index (finite-domain evaluation)')
+    rep.rule('N6', 'gambit query --strict: the flag becomes QueryParams.classify_strict, that object is what query() / query_parse() get, query_parse() forwards it; query() -> classify(strict=params.classify_strict) is C03-D6 re-evaluated')
+    from ..clirules import check_query_cli_params
+    check_query_cli_params(rep, ctx.model, 'N6')
     rep.assumptions += ['Finite-domain evaluation: the anchors are interpreted (not executed) on every rooted forest up to 5 nodes x every sequence of up to 4 distinct taxa (6 nodes / 5 taxa in the thorough tier), and on a '
                         '7-taxon forest with thresholds x every list of up to 2 (a sub-alphabet up to 3) (genome, distance) pairs; behaviour on larger inputs is extrapolated (small-scope argument).',
                         'Trusted base of the evaluation: Python container semantics, numpy.argmin = first minimum, zip_strict = zip(strict=True), attrs field/default semantics; ORM rows are finite records.']
@@ -1736,6 +1739,11 @@ VARIANTS = [
     V('descend on i <= 1', 'B', _C, "if i == 0 and not conflict:", "if i <= 1 and not conflict:", 'N2'),
     V('warning under the wrong set', 'B', _C, "\tif others:\n\t\tmsg = f'Query matched", "\tif consensus is None:\n\t\tmsg = f'Query matched", 'N4'),
     V('success flag never cleared', 'B', _C, "\t\tresult.success = False\n", "", 'N4'),
+    V('the --strict flag is dropped at QueryParams (mutation probe)', 'B', 'src/gambit/cli/query.py', "params = QueryParams(classify_strict=strict)", "params = QueryParams()", 'N6'),
+    V('--strict defaults to on', 'B', 'src/gambit/cli/query.py', "\t'--strict/--no-strict',\n\tdefault=False,", "\t'--strict/--no-strict',\n\tdefault=True,", 'N6'),
+    V('the signature-file query runs with default parameters', 'B', 'src/gambit/cli/query.py', "results = query(db, sigs, params, inputs=inputs, progress=pconf)", "results = query(db, sigs, inputs=inputs, progress=pconf)", 'N6'),
+    V('query_parse() does not forward the parameters', 'B', 'src/gambit/query.py', "return query(db, query_sigs, params, inputs=inputs, progress=pconf, **kw)", "return query(db, query_sigs, inputs=inputs, progress=pconf, **kw)", 'N6'),
+    V('E: parameters passed by keyword, built inline', 'E', 'src/gambit/cli/query.py', "results = query(db, sigs, params, inputs=inputs, progress=pconf)", "results = query(db, sigs, params=params, inputs=inputs, progress=pconf)"),
     V('primary filter inverted', 'B', _C, "if consensus not in taxon.ancestors(incself=True):\n\t\t\t\tcontinue", "if consensus in taxon.ancestors(incself=True):\n\t\t\t\tcontinue", 'N5'),
     V('primary filter dropped', 'B', _C, "\t\t\tif consensus not in taxon.ancestors(incself=True):\n\t\t\t\tcontinue\n", "", 'N5'),
     V('primary genome from closest index', 'B', _C, "genome=ref_genomes[best_i],", "genome=ref_genomes[closest],", 'N5'),
